@@ -715,7 +715,8 @@ class VMF:
             else:
                 self.node_id.discard(node_id)
 
-        self.ent_id.discard(item.id)
+        # The entity keeps its ID reserved while the object exists (it may be added again),
+        # Entity.__del__ releases it.
 
     def add_brushes(self, brushes: Iterable['Solid']) -> None:
         """Add multiple brushes to the map."""
